@@ -88,6 +88,15 @@ def gen_plan(S, index, tier):
     pool = {'P0': {'kind': 'ann', 'via': S.pick(['parse', 'create']), 'spec': sp}}
     if pool['P0']['via'] == 'create':
         pool['P0']['order'] = SP.gen_order(S, sp)
+    proteins = ['P0']
+    if S.coin(0.45):
+        # a second protein with other global rules, digested at the same time (results of different proteins alive
+        # together): same residue alphabet, its own modifications
+        cfg2 = dict(cfg, p=dict(cfg['p'], intervals=0.0))
+        sp2 = SP.gen_pep(S, cfg2)
+        sp2['intervals'] = []
+        pool['P1'] = {'kind': 'ann', 'via': S.pick(['parse', 'create']), 'spec': sp2}
+        proteins.append('P1')
     n = len(sp['seq'])
     events = []
     open_l = []
@@ -129,10 +138,11 @@ def gen_plan(S, index, tier):
             rts = S.sample(DRT, S.pick([1, 2, 2, 3, 5]))
             g = f'G{groups}'
             groups += 1
+            prot = S.pick(proteins)
             for rt in rts:
                 lh = f'L{nl}'
                 nl += 1
-                events.append({'act': 'open', 'out': lh, 'group': g, 'args': a, 'rt': rt, 'client': 0})
+                events.append({'act': 'open', 'out': lh, 'group': g, 'args': a, 'rt': rt, 'client': 0, 'protein': prot})
                 if 'interleave' in faults or 'abandon' in faults:
                     open_l.append(lh)
                 else:
@@ -148,7 +158,8 @@ def gen_plan(S, index, tier):
             open_l.remove(lh)
             events.append({'act': 'close', 'lazy': lh, 'client': 0})
         elif act == 'query':
-            events.append({'act': 'query', 'op': S.pick(QUERIES), 'client': 1, 'sel': S.randint(0, 10 ** 6)})
+            events.append({'act': 'query', 'op': S.pick(QUERIES), 'client': 1, 'sel': S.randint(0, 10 ** 6),
+                           'protein': S.pick(proteins)})
         elif act == 'rng':
             events.append({'act': 'rng', 'n': S.randint(1, 99)})
     for lh in open_l:
@@ -189,16 +200,15 @@ class _Run(RunBase):
 
     def __init__(self, plan):
         super().__init__(plan)
-        self.p = None
-        self.m = None
-        self.p_nf = None
+        self.prot = {}       # handle -> {'p': live protein, 'm': model, 'nf': dump at build time}
         self.lazies = {}
         self.groups = {}     # group -> {lazy handle: [normalised peptide dumps by index]}
         self.calls_since = 0
 
     def on_known(self):
-        if self.p is not None and N.same(self.p_nf, N.norm_ann(self.p)) is not None:
-            world.restore(self.p, self.p_nf)
+        for pr in self.prot.values():
+            if N.same(pr['nf'], N.norm_ann(pr['p'])) is not None:
+                world.restore(pr['p'], pr['nf'])
 
 
 OPEN_FIELDS = ('labile', 'unknown', 'charge', 'adducts')
@@ -228,9 +238,11 @@ def execute(plan):
     pt = Env.pt
     run = _Run(plan)
     out = run.out
-    entry = plan['pool']['P0']
     try:
-        run.p = world.build_ann(entry)
+        for h, entry in plan['pool'].items():
+            if entry['kind'] == 'ann':
+                pobj = world.build_ann(entry)
+                run.prot[h] = {'p': pobj, 'm': ModelPeptide.from_spec(entry['spec']), 'nf': N.norm_ann(pobj)}
     except world.BuildMismatch as e:
         out.probes['build_mismatch'] += 1
         out.record(['build_mismatch', str(e)[:200]])
@@ -239,8 +251,6 @@ def execute(plan):
         out.probes['build_failed'] += 1
         out.record(['build_failed', N.norm_exc(e)])
         return out
-    run.m = ModelPeptide.from_spec(entry['spec'])
-    run.p_nf = N.norm_ann(run.p)
     random.seed(plan['header'].get('seed', 0) % 999979)
     shape = []
     for ev_i, ev in enumerate(plan['events']):
@@ -266,7 +276,7 @@ def execute(plan):
         if stop:
             break
         out.oracle_checks += 1
-        d = N.same(run.p_nf, N.norm_ann(run.p))
+        d = _proteins_changed(run)
         if d is not None:
             if run.violation('ARG', act if act != 'open' else ev['args']['fn'], 'protein',
                              f"ARG: event {ev_i} ({act}) changed the shared protein: {d}", ev_i):
@@ -283,13 +293,25 @@ def execute(plan):
     return out
 
 
+def _proteins_changed(run):
+    for h, pr in run.prot.items():
+        d = N.same(pr['nf'], N.norm_ann(pr['p']))
+        if d is not None:
+            return f"{h}: {d}"
+    return None
+
+
 def _do_open(run, ev_i, ev):
     pt = Env.pt
     out = run.out
     a, rt = ev['args'], ev['rt']
     opname = a['fn']
+    ph = ev.get('protein', 'P0')
+    if ph not in run.prot:
+        ph = 'P0'
+    pr = run.prot[ph]
     # expected spans: the same call with return_type='span' on a fresh private twin (spans are computed eagerly)
-    twin = N.denorm(run.p_nf)
+    twin = N.denorm(pr['nf'])
     st = random.getstate()
     try:
         spans = [tuple(s) for s in _call(pt, twin, a, 'span')]
@@ -299,7 +321,7 @@ def _do_open(run, ev_i, ev):
     finally:
         random.setstate(st)
     try:
-        gen = _call(pt, run.p, a, rt)
+        gen = _call(pt, pr['p'], a, rt)
     except Exception as e:
         out.record([ev_i, N.norm_exc(e)])
         if span_err is None:
@@ -314,7 +336,10 @@ def _do_open(run, ev_i, ev):
             return False
         return run.violation('TYPES', opname, 'span-raises', f"TYPES: {opname}(return_type='span') raised {span_err!r} but "
                                                              f"return_type={rt!r} yields {first!r}", ev_i)
+    if len(run.prot) > 1:
+        out.probes['lazy_results_of_two_proteins'] += 1
     run.lazies[ev['out']] = {'gen': gen, 'rt': rt, 'args': a, 'spans': spans, 'k': 0, 'done': False, 'group': ev['group'],
+                             'prot': ph,
                              'calls_at_open': run.calls_since, 'masses': [], 'items': []}
     run.groups.setdefault(ev['group'], {})[ev['out']] = run.lazies[ev['out']]
     out.record([ev_i, 'open', len(spans)])
@@ -371,7 +396,7 @@ def _do_lazy(run, ev_i, ev):
         lz['k'] += 1
         # the protein must be as before after every single item, also inside a drain (a temporary edit that is
         # put back at exhaustion is visible to whoever looks in between)
-        d = N.same(run.p_nf, N.norm_ann(run.p))
+        d = _proteins_changed(run)
         if d is not None:
             if run.violation('ARG', opname, 'protein', f"ARG: producing item {k} of {opname}(return_type={lz['rt']!r}) "
                                                         f"changed the shared protein: {d}", ev_i):
@@ -383,6 +408,24 @@ def _do_lazy(run, ev_i, ev):
             continue
         if _check_item(run, ev_i, lz, k, item):
             return True
+        if _check_kept(run, ev_i, lz):
+            return True
+    # ... and, once per event, the items kept from the OTHER lazy results on the same protein as well
+    for other in run.lazies.values():
+        if other is not lz and other.get('kept') and _check_kept(run, ev_i, other):
+            return True
+    return False
+
+
+def _check_kept(run, ev_i, lz):
+    for (k0, obj, nf0) in lz.get('kept', []):
+        run.out.oracle_checks += 1
+        d = N.same(nf0, N.norm_ann(obj))
+        if d is not None:
+            lz['kept'] = []
+            return run.violation('STABLE', lz['args']['fn'], 'kept-item',
+                                 f"STABLE: item {k0} of {lz['args']['fn']}(return_type={lz['rt']!r}), kept by the consumer, "
+                                 f"changed after later items were produced: {d}", ev_i)
     return False
 
 
@@ -425,13 +468,19 @@ def _check_item(run, ev_i, lz, k, item):
             return run.violation('REPARSE', opname, 'multi', f"REPARSE: peptide string {pep!r} parses to several chains", ev_i)
     else:
         ann = pep
-    exp = run.m.slice(s, e)
-    what = f"item {k} (span {span}, return_type {rt!r}) of {opname} on {N.denorm(run.p_nf).serialize()!r}"
+    pr = run.prot[lz['prot']]
+    exp = pr['m'].slice(s, e)
+    what = f"item {k} (span {span}, return_type {rt!r}) of {opname} on {N.denorm(pr['nf']).serialize()!r}"
     if _cmp(run, ann, exp, what, opname, ev_i):
         return True
     out.probes['peptide_vs_model'] += 1
     nf = N.norm_ann(ann)
     lz['items'].append(nf)
+    # peptides the consumer keeps must stay what they were when they were handed out, whatever is produced later
+    if not isinstance(pep, str):
+        lz.setdefault('kept', []).append((k, pep, nf))
+        if len(lz['kept']) > 8:
+            del lz['kept'][0]
     # the return types opened on the same arguments describe the same peptides, in lock-step or out of step
     for oh, other in run.groups[lz['group']].items():
         if other is lz or k >= len(other['items']) or other['items'][k] is None:
@@ -448,7 +497,7 @@ def _check_item(run, ev_i, lz, k, item):
     if k < 10 or k % 7 == 0:
         out.oracle_checks += 1
         try:
-            idx = pt.find_subsequence_indices(N.denorm(run.p_nf), N.denorm(nf))
+            idx = pt.find_subsequence_indices(N.denorm(pr['nf']), N.denorm(nf))
         except Exception as ex:
             idx = ex
         out.probes['found_at_offset_checked'] += 1
@@ -456,7 +505,7 @@ def _check_item(run, ev_i, lz, k, item):
             if e > s:
                 if run.violation('FOUND', opname, 'offset',
                                  f"FOUND: peptide {ann.serialize()!r} of span {span} is not found at offset {s} in "
-                                 f"{N.denorm(run.p_nf).serialize()!r}: find_subsequence_indices gives {idx!r}", ev_i):
+                                 f"{N.denorm(pr['nf']).serialize()!r}: find_subsequence_indices gives {idx!r}", ev_i):
                     return True
     # mass bookkeeping for the conservation clause
     try:
@@ -477,7 +526,8 @@ def _mass_sum(run, ev_i, lz):
         return False
     if run.plan['header'].get('poisoned'):
         return False
-    m = run.m
+    pr = run.prot[lz['prot']]
+    m = pr['m']
     if m.charge is not None or m.unknown or any('N-Term' in st[0] or 'C-Term' in st[0] for st in m.static):
         out.probes['mass_sum_not_judged_terminal_static'] += 1
         return False
@@ -489,7 +539,7 @@ def _mass_sum(run, ev_i, lz):
     if not tiles or any(ms is None for ms in lz['masses']) or len(lz['masses']) != len(spans):
         return False
     try:
-        total = pt.mass(N.denorm(run.p_nf))
+        total = pt.mass(N.denorm(pr['nf']))
         lab = 0.0
         if m.labile:
             # what the labile modification(s) weigh in the calculator under the protein's isotope labels
@@ -514,17 +564,17 @@ def _mass_sum(run, ev_i, lz):
         return False
     if m.labile and cuts and abs(got - (exp + cuts * lab)) <= tol:
         return run.violation('MASSSUM', a['fn'], 'labile-copied',
-                             f"MASSSUM: the {len(spans)} zero-missed-cleavage peptides of {N.denorm(run.p_nf).serialize()!r} "
+                             f"MASSSUM: the {len(spans)} zero-missed-cleavage peptides of {N.denorm(pr['nf']).serialize()!r} "
                              f"weigh {got:.6f}, protein + {cuts} water is {exp:.6f}: every peptide carries the labile "
                              f"modification(s) ({lab:.6f} each)", ev_i)
     return run.violation('MASSSUM', a['fn'], 'mass',
-                         f"MASSSUM: the {len(spans)} zero-missed-cleavage peptides of {N.denorm(run.p_nf).serialize()!r} weigh "
+                         f"MASSSUM: the {len(spans)} zero-missed-cleavage peptides of {N.denorm(pr['nf']).serialize()!r} weigh "
                          f"{got:.6f}, protein + {cuts} water is {exp:.6f} (difference {got - exp:.6f})", ev_i)
 
 
 def _do_query(run, ev_i, ev):
     pt = Env.pt
-    p = run.p
+    p = run.prot.get(ev.get('protein', 'P0'), run.prot['P0'])['p']
     op = ev['op']
     run.out.probes['queries_by_second_client'] += 1
     try:
@@ -565,11 +615,11 @@ def _do_query(run, ev_i, ev):
 
 def shrink_candidates(plan):
     from sim.props.c08 import _spec_shrinks
-    sp = plan['pool']['P0']['spec']
-    for cand in _spec_shrinks(sp):
-        p2 = copy.deepcopy(plan)
-        p2['pool']['P0']['spec'] = cand
-        yield p2
+    for h in [k for k, v in plan['pool'].items() if v['kind'] == 'ann']:
+        for cand in _spec_shrinks(plan['pool'][h]['spec']):
+            p2 = copy.deepcopy(plan)
+            p2['pool'][h]['spec'] = cand
+            yield p2
     for i, ev in enumerate(plan['events']):
         if ev['act'] != 'open':
             continue
@@ -592,7 +642,7 @@ RULE = ("seeded random history on one generated protein of length 1-40 (residue,
         "return types on the same arguments, stepped one item at a time in scheduler order, interleaved with a second "
         "client's queries on the same protein, abandoned, or drained. Distinct = distinct sequence of (event kind, "
         "return type | query); non-trivial = at least two lazy results and more than three oracle comparisons.")
-EXPECTED_PROBES = ['peptide_vs_model', 'return_types_cross_checked', 'found_at_offset_checked', 'mass_sum_checked',
+EXPECTED_PROBES = ['lazy_results_of_two_proteins', 'peptide_vs_model', 'return_types_cross_checked', 'found_at_offset_checked', 'mass_sum_checked',
                    'lazy_stepped_across_a_call', 'abandoned_after_first_item', 'queries_by_second_client']
 ASSUMPTIONS = [
     "the span of the k-th item is the k-th span of the same call with return_type='span' on a fresh twin (which spans a "
